@@ -351,7 +351,11 @@ def typLoop (fr : Bool) : List (Str × Atom) → List (Str × Atom) → List (St
         | .str _ => typLoop fr r types
         | .bool _ => typLoop fr r types
         | _ => let x := typLoop fr r (delKey k types); (x.1, x.2 + 1)
-      else if vals.any (fun x => x.pyEq v) then typLoop fr r types
+      else if vals.any (fun x => x.pyEq v) then
+        -- a numeric flag value (0, 1) is stored as the boolean it is equal to (repair 6301216)
+        match v with
+        | .int i => typLoop fr r (setKey k (.bool (i != 0)) types)
+        | _ => typLoop fr r types
       else let x := typLoop fr r (delKey k types); (x.1, x.2 + 1)
 
 /-- `typ(types)` (Constituent.py:247-282) -/
